@@ -67,6 +67,18 @@ func LateWitness(steps int) *Scenario {
 	return &Scenario{Name: "latewitness4", Cfg: sim.Config{N: 4}, Seed: seed}
 }
 
+// Returning: n=4, node 3 takes part for `warm` steps, is silent (nobody hears from it, nobody refers to its
+// events) for `quiet` steps of gossip among the other three, then comes back for `steps` steps: its next event
+// has a self-parent that is `quiet` steps (about two events per step) old.
+func Returning(warm, quiet, steps int) *Scenario {
+	seed := FairSeed(seq(4), warm, 4)
+	seed = append(seed, Action{K: "S", A: 3})
+	seed = append(seed, FairSeed([]int{0, 1, 2}, quiet, 4)...)
+	seed = append(seed, Action{K: "H", A: 3})
+	seed = append(seed, FairSeed(seq(4), steps, 4)...)
+	return &Scenario{Name: fmt.Sprintf("returning4-%d", quiet), Cfg: sim.Config{N: 4}, Seed: seed}
+}
+
 // Join: n genesis validators, key n joins through validator 0 after `at`
 // fair steps; the joiner replays history from genesis (no fast-sync).
 func Join(n, at, steps int) *Scenario {
